@@ -293,3 +293,74 @@ class NegotiateReleaseTask(Task):
              detail=repr([e.name for e in pre]))
         if kind == "return" and g.get("in_loop"):
             self.iteration_done(I, "returned")
+
+
+REL = f"{ASSOC}:Association.release"
+
+
+class ReleaseCallTask(Task):
+    """Association.release (the local user's release) on its real body: on an association that is not established it does nothing;
+    otherwise it asks the reactor to pause, waits - polling, each poll a bounded sleep - until the reactor says it is paused,
+    runs the release negotiation exactly once while the reactor is paused, and lets the reactor go again afterwards (a reactor
+    left paused would block the association thread for ever)."""
+    name = "Association.release"
+    functions = [REL]
+    shard = False
+
+    def __init__(self, prefix="C08/"):
+        self.prefix = prefix
+
+    def config(self, repo):
+        import ast
+        from pyvc.interp import LoopSpec
+        c = Config()
+        c.ob_prefix = self.prefix
+        fi = repo.func(REL)
+        loops = [n for n in ast.walk(fi.node) if isinstance(n, (ast.For, ast.While))]
+        for i in range(len(loops)):
+            c.loop_specs[(REL, i)] = LoopSpec()
+        c.ext_models["time.sleep"] = lambda I, a, k: I.trace.append(Ev("sleep", (a[0],)))
+
+        def env_call(I, env, method, args, kw):
+            p = env.path
+            if p == "assoc._reactor_checkpoint" and method in ("set", "clear"):
+                I.trace.append(Ev(f"checkpoint.{method}"))
+                return None
+            if p == "assoc.acse" and method == "negotiate_release":
+                I.trace.append(Ev("negotiate_release", (I.ghost.get("last_paused"),)))
+                return None
+            return NotImplemented
+        c.env_call = env_call
+
+        def env_attr(I, env, name):
+            from pyvc.values import Volatile
+            if env.path == "assoc" and name == "_is_paused":
+                v = I.choose(2, "_is_paused") == 1
+                I.ghost["last_paused"] = v
+                return Volatile(v)
+            return NotImplemented
+        c.env_attr = env_attr
+        return c
+
+    def body(self, I):
+        P = f"{self.prefix}{REL}"
+        me = Env("assoc", cls=I.repo.cls(f"{ASSOC}:Association"))
+        me.attrs.update(_reactor_checkpoint=Env("assoc._reactor_checkpoint"), acse=Env("assoc.acse"))
+        est = I.choose(2, "established") == 1
+        me.attrs["is_established"] = est
+        kind, val = I.run_function(I.repo.func(REL), [me])
+        I.ob(f"{P}/no-exception", kind == "return", detail=f"{kind}:{val!r}")
+        if kind != "return":
+            return
+        names = [e.name for e in I.trace if e.name in ("checkpoint.set", "checkpoint.clear", "negotiate_release")]
+        if not est:
+            I.ob(f"{P}/nothing-happens-on-an-association-that-is-not-established", not names and not [e for e in I.trace if e.name == "setattr"],
+                 detail=repr(names))
+            return
+        neg = [e for e in I.trace if e.name == "negotiate_release"]
+        I.ob(f"{P}/the-release-is-negotiated-exactly-once-and-only-after-the-reactor-said-it-is-paused",
+             len(neg) == 1 and neg[0].args[0] is True, detail=repr([e.args for e in neg]))
+        I.ob(f"{P}/the-reactor-is-asked-to-pause-before-and-let-go-after-the-negotiation",
+             names == ["checkpoint.clear", "negotiate_release", "checkpoint.set"], detail=repr(names))
+        I.ob(f"{P}/every-wait-for-the-reactor-is-a-bounded-sleep", all(isinstance(e.args[0], (int, float)) and 0 < e.args[0] <= 1
+                                                                     for e in I.trace if e.name == "sleep"))
